@@ -411,6 +411,9 @@ def _c02_dup_keys(rec):
     if not b:
         return False
     _, _, _, tb, ta = b
+    calls = lambda tree: sum(isinstance(n, ast.Call) for n in ast.walk(tree))  # noqa: E731
+    if calls(ta) < calls(tb):
+        return False  # a call went away with the dropped item: that is not about which key object or position survives
     for n in ast.walk(tb):
         if isinstance(n, ast.Dict):
             keys = [k.value for k in n.keys if isinstance(k, ast.Constant)]
@@ -553,8 +556,8 @@ def _c02_static_scope(rec):
     if not b:
         return False
     _, _, _, tb, ta = b
-    removed = {f.name for c in ast.walk(tb) if isinstance(c, ast.ClassDef) for f in c.body if isinstance(f, ast.FunctionDef)} - \
-              {f.name for c in ast.walk(ta) if isinstance(c, ast.ClassDef) for f in c.body if isinstance(f, ast.FunctionDef)}
+    methods = lambda tree: {(c.name, f.name) for c in ast.walk(tree) if isinstance(c, ast.ClassDef) for f in c.body if isinstance(f, ast.FunctionDef)}  # noqa: E731
+    removed = {name for _, name in methods(tb) - methods(ta)}  # (per class: another class may keep a method of the same name)
     return any(isinstance(n, ast.Attribute) and n.attr in removed for n in ast.walk(ta))
 
 
